@@ -446,7 +446,8 @@ fn sieve_block(s: &SieveQS, st: &mut Sieve, roots: [&[u32]; 2], backward: bool) 
         let cofactor = p * q;
         //println!("i={} smooth {} cofactor {}", i, cabs, cofactor);
         let rel = Relation {
-            x: Uint::cast_from(xplus.abs()),
+            // For tiny n the interval is larger than n itself.
+            x: Uint::cast_from(xplus.abs()) % s.n,
             cofactor,
             cyclelen: 1,
             factors,
